@@ -100,7 +100,7 @@ func (r *c19Recorder) take() []any {
 
 // c19Layouts: where WithRecover sits among other interceptors/options.
 func c19Layouts() []string {
-	return []string{"recover-only", "recover,x,y", "x,recover,y", "x,y,recover", "opts[x],opts[recover]", "opts[x],opts[recover],opts[y]", "handleropts[x,recover]", "one-group[x,y],recover", "recover,empty", "x,recover,empty", "handleropts[recover,empty]", "empty,recover"}
+	return []string{"recover-only", "recover,x,y", "x,recover,y", "x,y,recover", "opts[x],opts[recover]", "opts[x],opts[recover],opts[y]", "handleropts[x,recover]", "one-group[x,y],recover", "recover,empty", "x,recover,empty", "handleropts[recover,empty]", "empty,recover", "annotate,recover", "annotate,recover,y"}
 }
 
 type noopIcept struct{ n *int32 }
@@ -111,6 +111,34 @@ func (noopIcept) WrapStreamingClient(next connect.StreamingClientFunc) connect.S
 }
 func (noopIcept) WrapStreamingHandler(next connect.StreamingHandlerFunc) connect.StreamingHandlerFunc {
 	return next
+}
+
+// annotateIcept is an interceptor outside the recovery one that annotates the
+// errors passing through it (fmt.Errorf with %w, as logging or tracing
+// middleware does): a coded error stays reachable through errors.As, a panic
+// is not an error and passes by untouched.
+type annotateIcept struct{}
+
+func (annotateIcept) WrapUnary(next connect.UnaryFunc) connect.UnaryFunc {
+	return func(ctx context.Context, req connect.AnyRequest) (connect.AnyResponse, error) {
+		res, err := next(ctx, req)
+		if err != nil {
+			err = fmt.Errorf("outer interceptor saw a failure: %w", err)
+		}
+		return res, err
+	}
+}
+func (annotateIcept) WrapStreamingClient(next connect.StreamingClientFunc) connect.StreamingClientFunc {
+	return next
+}
+func (annotateIcept) WrapStreamingHandler(next connect.StreamingHandlerFunc) connect.StreamingHandlerFunc {
+	return func(ctx context.Context, conn connect.StreamingHandlerConn) error {
+		err := next(ctx, conn)
+		if err != nil {
+			err = fmt.Errorf("outer interceptor saw a failure: %w", err)
+		}
+		return err
+	}
 }
 
 func c19Opts(layout string, rec *c19Recorder) []connect.HandlerOption {
@@ -139,6 +167,10 @@ func c19Opts(layout string, rec *c19Recorder) []connect.HandlerOption {
 		return []connect.HandlerOption{connect.WithHandlerOptions(rc, connect.WithInterceptors())}
 	case "empty,recover":
 		return []connect.HandlerOption{connect.WithInterceptors(), rc}
+	case "annotate,recover":
+		return []connect.HandlerOption{connect.WithInterceptors(annotateIcept{}), rc}
+	case "annotate,recover,y":
+		return []connect.HandlerOption{connect.WithInterceptors(annotateIcept{}), rc, y}
 	case "one-group[x,y],recover":
 		return []connect.HandlerOption{connect.WithInterceptors(noopIcept{}, noopIcept{}), rc}
 	}
